@@ -83,6 +83,8 @@ func main() {
 		os.Exit(runCheck(r))
 	case "sweep":
 		os.Exit(runSweep(os.Args[2:]))
+	case "replay":
+		os.Exit(runReplayCmd(os.Args[2:]))
 	default:
 		fmt.Fprintln(os.Stderr, "unknown command", os.Args[1])
 		os.Exit(2)
